@@ -378,6 +378,39 @@ def generate(rng, profile='engine'):
             if st.get('at') and st['at'][0] > first_none:
                 st['at'][0] = first_none
     scn['step_cap'] = 60000
+    if profile == 'engine' and tr in ('fd', 'pty', 'sock') and rng.random() < 0.002:
+        # a long session on one object: > 65536 characters handed back line by line (whatever is counted, offset or
+        # compacted only after a lot of text has gone through is not reached by short streams)
+        lines = []
+        total = 0
+        while total < rng.choice([70000, 90000, 110000]):
+            ln = ''.join(rng.choice('abc ') for _ in range(rng.randint(30, 100))) + '\r\n'
+            lines.append(ln)
+            total += len(ln)
+        data = ''.join(lines).encode('latin-1')
+        scn['peer'] = [{'op': 'w', 'd': harness.l1(p), 'dt': gen_dt(rng)} for p in cut(rng, data, rng.choice([4, 16]))]
+        scn['peer'].append({'op': 'exit', 'code': 0, 'dt': 50} if tr == 'pty' else {'op': 'close', 'dt': 50})
+        scn['ops'] = [{'op': rng.choice(['iter', 'readlines']), 'n': -1}]
+        scn['maxread'] = rng.choice([50, 60, 100, 2000])
+        scn['timeout'] = 5
+        scn['step_cap'] = 2000000
+        for k_ in ('tear', 'cap', 'sws', 'ignorecase', 'fold', 'exit_gap_us'):
+            scn.pop(k_, None)
+        scn['sws'] = None
+        ops = scn['ops']
+    if tr != 'popen' and rng.random() < 0.15:
+        scn['twin'] = True
+        scn['twin_at'] = sorted(set(rng.randrange(max(1, len(ops))) for _ in range(rng.randint(1, 3))))
+        ex_ops = [o for o in ops if o.get('op') == 'expect' and o.get('api') == 'expect_exact' and
+                  any(pp.get('t') == 'ex' for pp in o['pats'])]
+        if ex_ops and 'enc' not in scn and rng.random() < 0.7:
+            # ... and in half of these a second caller THREAD uses that object, with the very pattern list of one of the
+            # main thread's exact-string calls, on a stream of its own
+            scn['twin_thread'] = [dict(pp) for pp in rng.choice(ex_ops)['pats']]
+            scn['twin_data'] = ''.join(rng.choice('abc') for _ in range(rng.randint(50, 400)))
+            scn['twin_n'] = rng.randint(5, 40)
+            scn['twin_at'] = []
+            scn['sched'] = [rng.randint(0, 3) for _ in range(rng.randint(1, 12))]
     gen_eintr(rng, scn)
     return scn
 
@@ -414,14 +447,58 @@ def bytes_read_by_cut(r):
 def run(scn, clauses=None):
     """Run the scenario; return (violations, info)."""
     def body(r):
+        twin = None
+        if scn.get('twin'):
+            # a second, unrelated object of the same kind lives next to the one under test and is used now and then:
+            # whatever the two share that they should not (class-level or module-level state, a default-argument object)
+            # shows up as foreign text in the stream under test
+            from . import transports as T_
+            tr_, tw_ = r.k.pipe(4096)
+            # (in unicode mode its stream ends inside a multi-byte character: its decoder is left holding lead bytes)
+            tw_.write_now(b'QZQZ\nQQ' + (b'\xe2\x82' if scn.get('enc') else b''))
+            twin = T_.SimFdSpawn(r.k.alloc_fd(tr_), timeout=0.001, maxread=scn.get('maxread', 2000), encoding=scn.get('enc'),
+                                 searchwindowsize=scn.get('sws'))
         child = r.make_child()
+        twin_thread = None
+        if twin is not None and scn.get('twin_thread'):
+            # a second caller thread drives the second object with the same pattern list while the main thread works
+            tw_.write_now(harness.b(scn.get('twin_data', 'abcabcabc')))
+            plist_t = r.build_plist(scn['twin_thread'], True)
+
+            def twin_loop():
+                for _ in range(int(scn.get('twin_n', 8))):
+                    try:
+                        twin.expect_exact(list(plist_t), timeout=0)
+                    except (EOF, TIMEOUT):
+                        pass
+            twin_thread = r.w.spawn_thread('twin', twin_loop)
+            r.w.probe('second_caller_thread')
+        twin_at = set(scn.get('twin_at') or [])
         for k, op in enumerate(scn['ops']):
+            if twin is not None and k in twin_at:
+                try:
+                    twin.expect([TIMEOUT, EOF, (u'ZQ' if twin.encoding else b'ZQ')], timeout=0)
+                    r.w.probe('second_object_used_between_calls')
+                except Exception as e:
+                    if isinstance(e, (HarnessError, SimHang)):
+                        raise
             rec = r.do_op(k, op)
             if rec['out'] == 'HANG' and op.get('to', -1) is None:
                 break
             if rec['out'] == 'HANG':
                 break
+        if twin_thread is not None:
+            try:
+                r.w.block(lambda: twin_thread.state == 'done', 10 ** 9, 'join the second caller thread')
+            except SimHang:
+                pass
         v = evaluate(r, clauses)
+        if twin is not None and not v and not scn.get('twin_thread'):
+            seen = (twin.before if isinstance(twin.before, (bytes, str)) else twin.string_type()) + twin.buffer
+            seen_b = seen if isinstance(seen, bytes) else seen.encode('utf-8', 'replace')
+            if any(ch not in b'QZ\n' for ch in seen_b):
+                v.append(Violation('C01.conservation', 'text of the stream under test turned up in a second, unrelated object', None,
+                                   {'twin_saw': seen_b[:60], 'call': {'api': 'twin', 'op': None}}))
         if child.encoding is not None and (clauses is None or 'C01' in clauses or 'C07' in clauses):
             # the text delivered to matching must be the decoding of the bytes taken from the kernel -- whatever was
             # assigned to the buffer or sent in between (the read decoder's state belongs to the stream alone)
